@@ -1950,6 +1950,53 @@ fn generate(a: &Args) -> i32 {
         }
     }
 
+    // ---- a top-level call NESTED in a user Deserialize impl (an embedded YAML text) between the definition of a shared
+    // node and its aliases — in an ordinary field, inside a sequence, inside another wrapper's payload; the embedded
+    // document has anchors of its own (same parser ids). The sharing relation of the OUTER document must survive.
+    {
+        #[derive(Debug, PartialEq)]
+        struct Embedded(Vec<i32>);
+        impl serde::Serialize for Embedded {
+            fn serialize<S: serde::Serializer>(&self, s: S) -> Result<S::Ok, S::Error> {
+                s.serialize_str(&format!("- &a1 {}\n- &x [{}]\n- *a1\n", self.0.first().copied().unwrap_or(0), self.0.len()))
+            }
+        }
+        impl<'de> Deserialize<'de> for Embedded {
+            fn deserialize<D: serde::Deserializer<'de>>(d: D) -> Result<Self, D::Error> {
+                let text = String::deserialize(d)?;
+                let v: Vec<serde_json::Value> = serde_saphyr::from_str(&text).map_err(serde::de::Error::custom)?;
+                Ok(Embedded(vec![v.len() as i32]))
+            }
+        }
+        #[derive(serde::Serialize, Deserialize, Debug, PartialEq)]
+        struct NNode { v: i32 }
+        #[derive(serde::Serialize, Deserialize)]
+        struct NDoc { first: RcAnchor<NNode>, settings: Embedded, second: RcAnchor<NNode>, list: Vec<RcAnchor<NNode>>, mid: Vec<Embedded>, third: RcAnchor<NNode>, observer: RcWeakAnchor<NNode> }
+        for variant in 0..3u8 {
+            let shared = Rc::new(NNode { v: 7 });
+            let other = Rc::new(NNode { v: 8 });
+            let doc = NDoc {
+                first: RcAnchor(shared.clone()), settings: Embedded(vec![1, 2, 3]), second: RcAnchor(shared.clone()),
+                list: vec![RcAnchor(other.clone()), RcAnchor(shared.clone()), RcAnchor(other.clone())],
+                mid: (0..variant).map(|i| Embedded(vec![i as i32])).collect(), third: RcAnchor(if variant == 2 { other.clone() } else { shared.clone() }),
+                observer: RcWeakAnchor::from(&shared),
+            };
+            sink.count("nested_call_cases");
+            let text = match serde_saphyr::to_string(&doc) { Ok(t) => t, Err(e) => { oracle.fail("C14-nested-call-topology", "to_string failed", "", &e.to_string(), "Ok"); continue; } };
+            match catch(|| serde_saphyr::from_str::<NDoc>(&text)) {
+                Ok(Ok(b)) => {
+                    let same = |x: &RcAnchor<NNode>, y: &RcAnchor<NNode>| Rc::ptr_eq(&x.0, &y.0);
+                    let ok = same(&b.first, &b.second) && same(&b.first, &b.list[1]) && same(&b.list[0], &b.list[2]) && !same(&b.first, &b.list[0])
+                        && (if variant == 2 { same(&b.third, &b.list[0]) } else { same(&b.third, &b.first) })
+                        && b.observer.upgrade().map(|w| Rc::ptr_eq(&w, &b.first.0)).unwrap_or(false);
+                    if !ok { oracle.fail("C14-nested-call-topology", "a nested top-level call between an anchor and its aliases changed the sharing relation of the enclosing document", &text, "sharing differs", "first = second = list[1] (= third) = observer; list[0] = list[2]; the two groups distinct"); }
+                }
+                Ok(Err(e)) => oracle.fail("C14-nested-call-topology", "a nested top-level call between an anchor and its aliases made the enclosing document fail", &text, &e.to_string(), "Ok with the sharing relation"),
+                Err(_) => oracle.fail("C14-de-panic", "deserialization panicked", &text, "panic", "Ok or Err"),
+            }
+        }
+    }
+
     use std::io::Write;
     oracle.f.flush().unwrap();
     let nontrivial = distinct.len() as u64;
